@@ -45,6 +45,8 @@ var c20Neigh = map[string]c20Pt{
 	"nF": {0, mToDeg(3000)},
 	"xG": {0, mToDeg(300)}, // an id the n* pattern does not match
 	"m":  {0, mToDeg(400)}, // the id of the moving object, in another collection
+	"rH": {0, mToDeg(300)}, // a 3 km square whose centre is 300 m away: larger than the search rectangle
+	"rI": {mToDeg(600), mToDeg(600)},
 }
 
 var c20Pos = map[string]c20Pt{
@@ -162,6 +164,14 @@ func checkC20(job *Job, res *Result) {
 			}
 		}
 	}
+	// extended neighbours that stick out of the 2R x 2R search rectangle
+	for _, rk := range []string{"fleet", "others"} {
+		for _, h := range [][]string{{"T"}, {"T", "Far"}, {"T", "T2"}, {"Far", "T", "T3"}} {
+			for _, ns := range [][]string{{"rH"}, {"rH", "nB"}, {"rI", "rH"}} {
+				cfgs = append(cfgs, c20Config{"", rk, ns, "*", false, h})
+			}
+		}
+	}
 	// a neighbour in ANOTHER collection that happens to share the moving object's id
 	for _, h := range [][]string{{"T"}, {"T", "Far"}, {"T", "T2"}} {
 		cfgs = append(cfgs, c20Config{"", "others", []string{"m", "nB"}, "*", false, h})
@@ -219,6 +229,12 @@ func checkC20(job *Job, res *Result) {
 			}
 			putAll := func(key string) {
 				for _, n := range cfg.Neigh {
+					if strings.HasPrefix(n, "r") {
+						// an extended neighbour: a square of 3 km around its centre (distances are centre to centre)
+						h := mToDeg(1500)
+						c.Do("SET", key, n, "BOUNDS", fnum(pos[n].Lat-h), fnum(pos[n].Lon-h), fnum(pos[n].Lat+h), fnum(pos[n].Lon+h))
+						continue
+					}
 					c.Do("SET", key, n, "POINT", fnum(pos[n].Lat), fnum(pos[n].Lon))
 				}
 			}
